@@ -48,9 +48,7 @@ def r1_enumerators(chk: Check) -> None:
     chk.rule("C07.R1", "WHO-MUST-CALL: every enumerator of documented operations consults _should_skip per operation and yields / counts 'selected' only on the selected edge of that test", floor=5)
     P = chk.project
     for fn in _enumerators(P):
-        aliases = {"should_skip"} if any(
-            unparse(v) == "self._should_skip" for _, v in assignments_to(fn.node, "should_skip") if v is not None
-        ) else set()
+        aliases = set(defined_by(fn, "$v = self._should_skip"))
         aliases.add("self._should_skip")
         g = cfg_of(fn)
         tests = []
@@ -115,9 +113,14 @@ def r1b_should_skip(chk: Check) -> None:
                     chk.decide(r.value is True, "C07.R1b", fn, f"if {cond}: return {r.value}", "non-operation keys of a path item are not skipped", fn.loc(r))
         if ref.startswith(OAS):
             want = {"operation.method": "method", "operation.path": "path", "operation.definition.raw": "definition", "operation.schema": "self"}
+            alias = defined_by(fn, "$v = $_.operation")
+            if not alias:
+                chk.undecided("C07.R1b", fn, "filter context attributes", "the operation object of the filter context is not recognised", fn.loc())
             for n in walk_body(fn.node):
                 if isinstance(n, ast.Assign) and len(n.targets) == 1:
                     t = dotted(n.targets[0])
+                    if t and alias and t.startswith(alias[0] + "."):
+                        t = "operation." + t[len(alias[0]) + 1:]
                     if t in want:
                         v = dotted(n.value)
                         chk.decide(v == want[t], "C07.R1b", fn, f"{t} = {want[t]}", f"the filter context gets `{t} = {v}`: filters are evaluated against the wrong attribute", fn.loc(n))
@@ -247,17 +250,17 @@ def r2_links(chk: Check) -> None:
     adds = [c for c in body_calls(ct) if last_attr(c) == "add_outgoing"]
     if not adds:
         raise Undecided("add_outgoing not called in collect_transitions")
-    sel = None
-    for _, v in assignments_to(ct.node, "selected_labels"):
-        if isinstance(v, (ast.SetComp, ast.Call)) and "operations" in names_in(v) and "label" in unparse(v, 200):
-            sel = v
-    chk.decide(True if sel is not None else None, "C07.R2", ct, "selected_labels built from the filtered `operations`", "selected set is not derived from the operations parameter", ct.loc())
+    ops_param = params_of(ct.node)[0]
+    sel_vars = [name_of(b, "v") for n_, b in pfind("$v = $X", ct.node) if isinstance(b["X"], (ast.SetComp, ast.Call)) and ops_param in names_in(b["X"]) and phas("$o.label", b["X"])]
+    chk.decide(True if sel_vars else None, "C07.R2", ct, "selected_labels built from the filtered `operations`", "selected set is not derived from the operations parameter", ct.loc())
+    sel_names = set(sel_vars) or {"selected_labels"}
+    in_sel = lambda x: isinstance(x, ast.Compare) and isinstance(x.ops[0], (ast.In, ast.NotIn)) and isinstance(x.comparators[0], ast.Name) and x.comparators[0].id in sel_names  # noqa: E731
     for c in adds:
         nodes = g.stmt_nodes_containing(c)
-        tests = [(tid, e) for tid, e in guard_tests(g, lambda e: any(isinstance(x, ast.Compare) and isinstance(x.ops[0], (ast.In, ast.NotIn)) and "selected_labels" in unparse(x.comparators[0]) for x in ast.walk(e)))]
+        tests = [(tid, e) for tid, e in guard_tests(g, lambda e: any(in_sel(x) for x in ast.walk(e)))]
         ok = None
         for tid, e in tests:
-            cmp_ = next(x for x in ast.walk(e) if isinstance(x, ast.Compare) and "selected_labels" in unparse(x.comparators[0]))
+            cmp_ = next(x for x in ast.walk(e) if in_sel(x))
             lbl = "true" if isinstance(cmp_.ops[0], ast.In) else "false"
             target_ok = "target" in unparse(cmp_.left, 100)
             if all(g.dominated_by_edge(n, tid, lbl) for n in nodes):
@@ -271,12 +274,21 @@ def r2_links(chk: Check) -> None:
         else:
             chk.decide(ok, "C07.R2", ct, norm(c), "the membership test does not protect the link TARGET (or is inverted): excluded operations become transition targets", ct.loc(c))
     csm = P.func("specs/openapi/stateful/__init__.py:create_state_machine")
-    ops = [v for _, v in assignments_to(csm.node, "operations") if v is not None]
+    # the operation list of the state machine = what collect_transitions(...) receives
+    ctc = [c for c in body_calls(csm) if last_attr(c) == "collect_transitions" and c.args and isinstance(c.args[0], ast.Name)]
+    if not ctc:
+        chk.undecided("C07.R2", csm, "operations = filtered get_all_operations()", "collect_transitions(<operations>) not found", csm.loc())
+        return
+    ops_var = ctc[0].args[0].id  # type: ignore[attr-defined]
+    ops = [v for _, v in assignments_to(csm.node, ops_var) if v is not None]
     chk.decide(True if ops and all("get_all_operations" in unparse(v, 300) for v in ops) else (None if ops else False), "C07.R2", csm,
                "operations = filtered get_all_operations()", "state machine operations do not come from the filtered enumeration", csm.loc())
-    targets_ok = any(isinstance(n, ast.For) and dotted(n.iter) == "operations" and any(isinstance(x, ast.Subscript) and dotted(x.value) == "rules" and isinstance(x.ctx, ast.Store) for s in n.body for x in ast.walk(s)) for n in walk_body(csm.node))
-    rule_stores = [n for n in walk_body(csm.node) if isinstance(n, ast.Subscript) and dotted(n.value) == "rules" and isinstance(n.ctx, ast.Store)]
-    outside = [n for n in rule_stores if not any(isinstance(a, ast.For) and dotted(a.iter) == "operations" for a in __import__("sa.loader", fromlist=["ancestors"]).ancestors(n))]
+    # the rule table: the mapping whose items end up as the attributes of the state machine class (type(..., (..), {..., **rules}))
+    rule_vars = {x.value.id for x in ast.walk(csm.node) if isinstance(x, ast.Subscript) and isinstance(x.ctx, ast.Store) and isinstance(x.value, ast.Name)
+                 and any(isinstance(c, ast.Call) and last_attr(c) in ("precondition", "transition") for c in ast.walk(stmt_of(x) or x))}
+    targets_ok = any(isinstance(n, ast.For) and dotted(n.iter) == ops_var and any(isinstance(x, ast.Subscript) and dotted(x.value) in rule_vars and isinstance(x.ctx, ast.Store) for s in n.body for x in ast.walk(s)) for n in walk_body(csm.node))
+    rule_stores = [n for n in walk_body(csm.node) if isinstance(n, ast.Subscript) and dotted(n.value) in rule_vars and isinstance(n.ctx, ast.Store)]
+    outside = [n for n in rule_stores if not any(isinstance(a, ast.For) and dotted(a.iter) == ops_var for a in __import__("sa.loader", fromlist=["ancestors"]).ancestors(n))]
     if outside:
         chk.violation("C07.R2", csm, "rules only for `target in operations`", "a state machine rule is created outside the loop over the selected operations", csm.loc(outside[0]))
     else:
@@ -333,10 +345,16 @@ def r4_statistic(chk: Check) -> None:
                 ok = False
             chk.decide(ok, "C07.R4", fn, norm(n), "links are counted as selected without checking that their target operation is selected", fn.loc(n))
     # collected_links.extend(...) only when is_selected
+    # the list of links to be judged = what the loop around `links.selected += 1` iterates
+    from ..loader import ancestors as _anc
+
+    link_lists = {dotted(a.iter) for n in walk_body(fn.node) if isinstance(n, ast.AugAssign) and (dotted(n.target) or "").endswith("links.selected") for a in _anc(n) if isinstance(a, ast.For) and dotted(a.iter)}
+    if not link_lists:
+        chk.undecided("C07.R4", fn, "collected links", "the loop that counts selected links is not recognised", fn.loc())
     for c in body_calls(fn):
-        if last_attr(c) in ("extend", "append") and dotted(c.func.value) == "collected_links":  # type: ignore[union-attr]
+        if last_attr(c) in ("extend", "append") and isinstance(c.func, ast.Attribute) and dotted(c.func.value) in link_lists:
             nodes = g.stmt_nodes_containing(c)
-            tests = [(tid, _selected_edge(fn, e, {"should_skip", "self._should_skip"})) for tid, e in guard_tests(g, lambda e: True)]
+            tests = [(tid, _selected_edge(fn, e, set(defined_by(fn, "$v = self._should_skip")) | {"self._should_skip"})) for tid, e in guard_tests(g, lambda e: True)]
             tests = [(t, l) for t, l in tests if l]
             ok = any(all(g.dominated_by_edge(x, t, l) for x in nodes) for t, l in tests)
             chk.decide(ok, "C07.R4", fn, norm(c)[:80], "links of unselected source operations are counted as selected", fn.loc(c))
@@ -347,7 +365,9 @@ def r4_statistic(chk: Check) -> None:
     rets = simple_return_expr(ils)
     member = [r for r in rets if isinstance(r, ast.Compare) and isinstance(r.ops[0], ast.In)]
     sets = {unparse(r.comparators[0]) for r in member}
-    good = {"selected_operations_by_id", "selected_operations_by_path"} <= sets
+    # the sets consulted are filled under the selected edge (they hold ids / paths of SELECTED operations)
+    filled = {c.func.value.id for c in body_calls(fn) if last_attr(c) == "add" and isinstance(c.func, ast.Attribute) and isinstance(c.func.value, ast.Name)}
+    good = len(sets) >= 2 and sets <= filled
     neg = [r for r in rets if isinstance(r, ast.Compare) and isinstance(r.ops[0], ast.NotIn)]
     if neg:
         chk.violation("C07.R4", ils, "membership in the selected sets", "a link counts as selected when its target is NOT selected", ils.loc(neg[0]))
@@ -442,16 +462,26 @@ def r5_cli_plumbing(chk: Check) -> None:
     if rows < len(STEMS):
         chk.violation("C07.R5", into, "exclude *_regex options", f"only {rows} of {len(STEMS)} --exclude-*-regex options are turned into filters", into.loc())
     # by-expression and deprecated
-    body_text = unparse(into.node, 100000)
-    for needle, what in (("filter_set.include(include_by_function)", "--include-by"), ("filter_set.exclude(exclude_by_function)", "--exclude-by"), ("filter_set.exclude(is_deprecated)", "--exclude-deprecated")):
-        chk.decide(True if needle in body_text else None, "C07.R5", into, needle, f"{what} handling not recognised", into.loc())
-    for var, attr in (("include_by_function", "self.include_by"), ("exclude_by_function", "self.exclude_by")):
-        vals = local_value(into, var)
-        chk.decide(bool(vals) and attr in unparse(vals[0]), "C07.R5", into, f"{var} from {attr}", f"{var} is built from {unparse(vals[0]) if vals else '?'}", into.loc())
+    for mode_, attr, what in (("include", "self.include_by", "--include-by"), ("exclude", "self.exclude_by", "--exclude-by")):
+        fvars = [name_of(b, "v") for n_, b in pfind("$v = _filter_by_expression_to_func($A, ...)", into.node) if dotted(b["A"]) == attr]
+        regs = [c for c in body_calls(into) if (dotted(c.func) or "").endswith(f".{mode_}") and c.args and isinstance(c.args[0], ast.Name) and c.args[0].id in fvars]
+        other = [c for c in body_calls(into) if (dotted(c.func) or "").endswith(f".{'exclude' if mode_ == 'include' else 'include'}") and c.args and isinstance(c.args[0], ast.Name) and c.args[0].id in fvars]
+        construct = f"filter_set.{mode_}(<function built from {attr}>)"
+        if other:
+            chk.violation("C07.R5", into, construct, f"the {what} expression is registered as the opposite kind of filter", into.loc(other[0]))
+        elif not fvars:
+            chk.undecided("C07.R5", into, construct, f"{what}: conversion of the expression not recognised", into.loc())
+        else:
+            chk.decide(bool(regs), "C07.R5", into, construct, f"the {what} expression is parsed but never registered: the option is silently ignored", into.loc())
+    dep = [c for c in body_calls(into) if (dotted(c.func) or "").endswith(".exclude") and c.args and dotted(c.args[0]) == "is_deprecated"]
+    chk.decide(True if dep else None, "C07.R5", into, "filter_set.exclude(is_deprecated)", "--exclude-deprecated handling not recognised", into.loc())
     # schema.filter_set = config.filter_set before the engine is created
     ies = P.func("cli/commands/run/executor.py:into_event_stream")
     g = cfg_of(ies)
-    assigns = [n for n in walk_body(ies.node) if isinstance(n, ast.Assign) and dotted(n.targets[0]) == "schema.filter_set"]
+    schema_vars = set(defined_by(ies, "$v = load_schema(...)"))
+    assigns = [n for n in walk_body(ies.node) if isinstance(n, ast.Assign) and isinstance(n.targets[0], ast.Attribute) and n.targets[0].attr == "filter_set" and dotted(n.targets[0].value) in schema_vars]
+    if not schema_vars:
+        raise Undecided("load_schema(...) result not found in into_event_stream")
     eng = [c for c in body_calls(ies) if last_attr(c) == "from_schema"]
     if not assigns:
         chk.violation("C07.R5", ies, "schema.filter_set = config.filter_set", "the CLI filters never reach the schema: every operation is tested", ies.loc())
@@ -467,24 +497,29 @@ def r5_cli_plumbing(chk: Check) -> None:
     for ref in ("schemas.py:BaseSchema.include", "schemas.py:BaseSchema.exclude", "pytest/lazy.py:LazySchema.include", "pytest/lazy.py:LazySchema.exclude"):
         fn = P.func(ref)
         mode = fn.name
-        fs_vals = local_value(fn, "filter_set")
+        # the filter set of the derived schema: what is handed to clone(filter_set=...) / LazySchema(..., filter_set=...)
+        rets = simple_return_expr(fn)
+        carried = [kwarg(r, "filter_set") for r in rets if isinstance(r, ast.Call) and isinstance(kwarg(r, "filter_set"), ast.Name)]
+        if not carried:
+            chk.violation("C07.R5", fn, "returns a schema carrying the new filter_set", "the derived schema does not receive the extended filter set", fn.loc())
+            continue
+        fsv = carried[0].id  # type: ignore[union-attr]
+        fs_vals = local_value(fn, fsv)
         cloned = bool(fs_vals) and all(unparse(v) == "self.filter_set.clone()" for v in fs_vals)
         if fs_vals and any(unparse(v) == "self.filter_set" for v in fs_vals):
             chk.violation("C07.R5", fn, "filter_set = self.filter_set.clone()", "the schema's own filter set is mutated: every schema derived from it changes too", fn.loc())
         else:
             chk.decide(True if cloned else None, "C07.R5", fn, "filter_set = self.filter_set.clone()", "filter set is not derived from a clone of the schema's", fn.loc())
-        fwd = [c for c in body_calls(fn) if dotted(c.func) == f"filter_set.{mode}" and c.keywords]
+        fwd = [c for c in body_calls(fn) if dotted(c.func) == f"{fsv}.{mode}" and c.keywords]
         if not fwd:
             chk.violation("C07.R5", fn, f"filter_set.{mode}(...)", f"schema.{mode}() registers nothing", fn.loc())
         for c in fwd:
             kws = [p for p in params_of(fn.node) if p not in ("self", "func", "deprecated")]
             check_identity_forwarding(chk, "C07.R5", fn, c, required=kws, what=f"filter_set.{mode}")
-        wrong = [c for c in body_calls(fn) if dotted(c.func) == f"filter_set.{'exclude' if mode == 'include' else 'include'}"]
+        wrong = [c for c in body_calls(fn) if dotted(c.func) == f"{fsv}.{'exclude' if mode == 'include' else 'include'}"]
         if wrong:
             chk.violation("C07.R5", fn, f"filter_set.{mode}(...)", f"schema.{mode}() registers the opposite kind of filter", fn.loc(wrong[0]))
-        rets = simple_return_expr(fn)
-        passes = any(isinstance(r, ast.Call) and isinstance(kwarg(r, "filter_set"), ast.Name) and kwarg(r, "filter_set").id == "filter_set" for r in rets)  # type: ignore[union-attr]
-        chk.decide(passes, "C07.R5", fn, "returns a schema carrying the new filter_set", "the derived schema does not receive the extended filter set", fn.loc())
+        chk.ok("C07.R5", fn, "returns a schema carrying the new filter_set", fsv, fn.loc())
 
 
 # --------------------------------------------------------------------------------------------- R6
